@@ -342,6 +342,7 @@
 		cmp	ebx, FLAGS_CPUID7_EBX_AVX512_G1
 		lea	mbin_rbx, [%6 WRT_OPT] ; AVX512/06 opt
 		cmove	mbin_rsi, mbin_rbx
+		jne	_%1_init_done	  ; Incomplete AVX512 group 1: stay with AVX2
 
 		and	ecx, FLAGS_CPUID7_ECX_AVX512_G2
 		cmp	ecx, FLAGS_CPUID7_ECX_AVX512_G2
@@ -487,6 +488,7 @@
 		cmp	ebx, FLAGS_CPUID7_EBX_AVX512_G1
 		lea	mbin_rbx, [%6 WRT_OPT] ; AVX512/06 opt
 		cmove	mbin_rsi, mbin_rbx
+		jne	_%1_init_done	  ; Incomplete AVX512 group 1: stay with AVX2
 
 		;; Test for SHANI
 		xor	ecx, ecx
